@@ -403,6 +403,7 @@ type walkInfo struct {
 	Root     ssa.Value
 	Callback *ssa.Function
 	Closure  []*ssa.Function
+	Wrapper  *ssa.Function // bound-method wrapper handed to ast.Inspect when the callback is a method value
 }
 
 func (c *Ctx) walks() []*walkInfo {
@@ -427,6 +428,20 @@ func (c *Ctx) walks() []*walkInfo {
 				}
 				if f, ok := r.(*ssa.Function); ok {
 					w.Callback = f
+				}
+			}
+			if w.Callback != nil && isBoundWrapper(w.Callback) {
+				// ast.Inspect(root, v.visit): the callback is the method, its node parameter comes after the receiver
+				var target *ssa.Function
+				allInstrs(w.Callback, func(_ *ssa.BasicBlock, i2 ssa.Instruction) {
+					if ci, ok := i2.(ssa.CallInstruction); ok {
+						if t := ci.Common().StaticCallee(); t != nil {
+							target = t
+						}
+					}
+				})
+				if target != nil && len(target.Params) == 2 {
+					w.Wrapper, w.Callback = w.Callback, target
 				}
 			}
 			if w.Callback != nil {
@@ -480,8 +495,13 @@ func (c *Ctx) roleOf(r ssa.Value, depth int) string {
 	}
 	switch x := r.(type) {
 	case *ssa.Parameter:
-		if x.Parent().Parent() != nil {
+		if closureLike(x.Parent()) {
 			return "node"
+		}
+		for _, w := range c.walks() {
+			if w.Wrapper != nil && w.Callback == x.Parent() && len(w.Callback.Params) == 2 && w.Callback.Params[1] == x {
+				return "node" // node parameter of a method used as walk callback
+			}
 		}
 		return "param"
 	case *ssa.UnOp:
